@@ -373,6 +373,8 @@ def eps_lowest(r):
 def rat(v):
     if isinstance(v, Rat):
         return v
+    if isinstance(v, SArr) and v.shape == ():
+        return rat(v.data[0])          # a NumPy scalar (0-d array) used as a number
     if isinstance(v, bool):
         return Rat(int(v))
     if isinstance(v, int):
